@@ -7,6 +7,7 @@ mod p_multigen;
 mod p_pipe;
 mod p_tok;
 mod p_windows;
+mod p_words;
 mod p_ws;
 
 use common::*;
@@ -25,6 +26,8 @@ fn component(name: &str) -> (ExecFn, GenFn) {
     match name {
         "edit" => (p_edit::exec, p_edit::gen),
         "pipe" => (p_pipe::exec, p_pipe::gen),
+        "match" => (p_words::exec_match, p_words::gen_match),
+        "metrics" => (p_words::exec_metrics, p_words::gen_metrics),
         "editword" => (p_editword::exec, p_editword::gen),
         "windows" => (p_windows::exec, p_windows::gen),
         "ws" => (p_ws::exec, p_ws::gen),
